@@ -69,17 +69,21 @@ Theorem C01_variant_partial : forall D tag variants m s v r,
   deser_tagged D tag variants m = Some r -> exists p, r = VVariant (v_ident v) p.
 Proof. exact tagged_selects_own. Qed.
 
-(* layer 5 — COMPOSITION, by certificate: for ANY item list the checker `plain_need` accepts for a
-   struct and a selection set (fields only, objects / scalars / enums / custom scalars, any nesting,
-   any list / non-null wrapping), every conforming payload of every size is accepted.  The checker
-   runs on the generator model's items per case (RunResp.certified); the theorem quantifies over
-   all payloads.  Interfaces, unions, fragments and ID leaves are outside the checker (it answers
-   None), so this is still a partial composition. *)
-Theorem C01_plain_checker_sound : forall s frags henv env fuel name t sels B,
-  plain_need s henv env fuel name t sels = Some B ->
-  forall F, B <= F -> forall Fj m, cobj s frags Fj t sels m = true ->
+(* layer 5 — COMPOSITION, by certificate: for ANY item list the checker `sel_need` accepts for a type
+   name and a selection set, every conforming payload of every size, for every runtime type of the
+   position, is accepted.  The checker covers: object types (plain structs), interfaces and unions
+   (`__typename`-tagged enum, alone or flattened as the last member of a struct with the shared
+   fields; one inline fragment with a field-only body per member type; members without fragment as
+   unit variants), scalars, custom scalars, enums and ID leaves (all three helpers) under any
+   list / non-null wrapping, to any depth.  Named fragments (spreads), nested fragments inside
+   inline fragments, and operations that need field merging are outside it (it answers None), so
+   this remains a partial composition.  The checker runs on the generator model's items per case
+   (RunResp.certified); the theorem quantifies over all payloads. *)
+Theorem C01_checker_sound : forall s frags henv env fuel name t sels B,
+  sel_need s henv env fuel name t sels = Some B ->
+  forall F, B <= F -> forall Fj m rt, In rt (possible s t) -> cobj s frags Fj rt sels m = true ->
   is_some (deser henv F env (RNamed name) (JObj m)) = true.
-Proof. exact plain_accepts. Qed.
+Proof. exact sel_accepts. Qed.
 
 Theorem C01_certified_accepts_all_partial : forall s henv env doc op B,
   certify s henv env doc op = Some B ->
@@ -95,10 +99,18 @@ Definition cert_example_schema : sdl_doc :=
                            mkFD "nick" (GNamed "ID") None; mkFD "name" (GNonNull (GNamed "String")) None; mkFD "color" (GNamed "Color") None;
                            mkFD "weights" (GNonNull (GList (GNonNull (GNamed "Float")))) None;
                            mkFD "owner" (GNamed "Person") None; mkFD "friends" (GList (GNamed "Dog")) None];
-         DObject "Query" [] [mkFD "dogs" (GNonNull (GList (GNonNull (GNamed "Dog")))) None; mkFD "count" (GNonNull (GNamed "Int")) None]] None.
+         DObject "Cat" ["Animal"] [mkFD "id" (GNonNull (GNamed "ID")) None; mkFD "lives" (GNonNull (GNamed "Int")) None];
+         DObject "Bird" ["Animal"] [mkFD "id" (GNonNull (GNamed "ID")) None];
+         DInterface "Animal" [mkFD "id" (GNonNull (GNamed "ID")) None];
+         DUnion "Pet" ["Cat"; "Dog"];
+         DObject "Query" [] [mkFD "dogs" (GNonNull (GList (GNonNull (GNamed "Dog")))) None; mkFD "count" (GNonNull (GNamed "Int")) None;
+                             mkFD "animals" (GList (GNamed "Animal")) None; mkFD "pet" (GNamed "Pet") None]] None.
 Definition cert_example_doc : list qdef :=
   [QOp OQuery (Some "Q") []
      [SField None "count" [];
+      SField None "animals" [SField None "__typename" []; SField None "id" [];
+                             SInline (Some "Cat") [SField None "lives" []]];
+      SField None "pet" [SField None "__typename" []; SInline (Some "Dog") [SField None "name" []; SField None "nick" []]];
       SField (Some "all") "dogs" [SField None "__typename" []; SField None "id" []; SField None "tags" [];
                                   SField None "nick" []; SField None "name" []; SField None "color" [];
                                   SField None "weights" [];
@@ -108,7 +120,7 @@ Example C01_certificate_example :
   match schema_of_sdl cert_example_schema with
   | Ok s => match generate s cert_example_doc
                      (mkOpts true (Some "Q") None None (Some "Serialize") None false None [] false false None None None) "" with
-            | Ok [m] => match certify s RunSerde.henv (m_items m) cert_example_doc "Q" with Some B => Nat.leb B 20 | None => false end
+            | Ok [m] => match certify s RunSerde.henv (m_items m) cert_example_doc "Q" with Some B => Nat.leb B 30 | None => false end
             | _ => false end
   | _ => false end = true.
 Proof. vm_compute. reflexivity. Qed.
@@ -143,7 +155,7 @@ Print Assumptions C01_string_partial.
 Print Assumptions C01_enum_partial.
 Print Assumptions C01_struct_partial.
 Print Assumptions C01_variant_partial.
-Print Assumptions C01_plain_checker_sound.
+Print Assumptions C01_checker_sound.
 Print Assumptions C01_certified_accepts_all_partial.
 Print Assumptions C01_certificate_example.
 Print Assumptions C01_field_merging_refuted.
